@@ -17,7 +17,7 @@ TECHNIQUE = ('class-graph / table extraction (operator -> node class -> overflow
              'helper-name agreement with #if coverage, clang as parser for the Binop dispatch and as constant evaluator for the '
              'MIN / -1 guard (compile-fail witness); visitor-dispatch resolution + summary substitution of delegating handlers for the fold barrier; '
              'bounded model check of the Overflow.c helpers and decision table of the Binop dispatcher with the checker\'s own C interpreter (rules/pC03.py, model machines); '
-             'typed truth table of the emitted MIN / -1 guard (shared with C03-GUARD)')
+             'typed truth table of the emitted MIN / -1 guard (shared with C03-GUARD); or-only proof / set-bit-on-entry evaluation of every store through the overflow pointer (rules/s4C04.py)')
 DECIDES = ('(OPS) each of + - * << is built by a NumBinopNode subclass whose overflow_op_names contains it and whose effective '
            'analyse_c_operation reads directives["overflowcheck"]; each of + - * << / // and unary - has code that raises OverflowError reachable '
            'from its generate_evaluation_code; (ENABLE) where overflow_check is switched on the node becomes a temp, gets its helper name from '
@@ -40,7 +40,10 @@ DECIDES = ('(OPS) each of + - * << is built by a NumBinopNode subclass whose ove
            'set the bit for every operand pair of a 4-bit model type whose exact result does not fit, return the exact result otherwise and execute no undefined C operation '
            '(bounded model check by rules/pC03.py; parametricity premise: no literal but 0, 1, 2, 8); (DISPATCH table) every type of at least int rank reaches a checked helper of its width and signedness on ILP32/LP64/LLP64; '
            '(SIGNKEY) LeftShift is instantiated with SIGNED truthy exactly for signed types; (MINGUARD) where the compile-time part of the emitted MIN / -1 guard holds the guard intercepts (MIN, -1), '
-           'i.e. the divisor is compared with -1 and the negation test is applied to the dividend.')
+           'i.e. the divisor is compared with -1 and the negation test is applied to the dividend; '
+           '(STICKY, rules/s4C04.py) no checked helper ever clears an overflow bit that is already set - the bit is shared by all operations of a folded expression - and the Binop dispatcher '
+           'hands the caller\'s bit cell to the base helper it selects: stores of the shape `*overflow |= e` (and forwarding to such a callee) are accepted syntactically, every other store shape '
+           '(`=`, `^=`, a written-back local, a re-seated pointer) is decided by evaluating the helper for all operand pairs of the model type with the bit set on entry.')
 NOT_DECIDED = ('the transfer of ARITH from the 4-bit model width (fractional sizeof) to the production widths, which rests on the syntactic parametricity premise; the unused __Pyx_div_*_checking_overflow helpers '
                '(`div` is not in overflow_op_names); that ConsolidateOverflowCheck *restores* the saved bit node after a '
                'non-arithmetic node (dropping the restore only loses folding, the property still holds, so it is deliberately not demanded: '
@@ -1121,14 +1124,14 @@ def _dispatch_arms(text, fname, tname='__pyx_T', op='add'):
         return None
 
     def returned_callees(n):
+        # the checked helpers the arm calls - in the return statement or through a local that is returned (the value flow is decided by the
+        # decision table of rules/sC04.dispatch_table; here only WHICH helper an arm names matters)
         out = []
-        for x in absint.c_walk(n):
-            if x.get('kind') == 'ReturnStmt':
-                for y in absint.c_walk(x):
-                    if y.get('kind') == 'CallExpr' and y.get('inner'):
-                        nm = absint.c_name(y['inner'][0])
-                        if nm:
-                            out.append(nm)
+        for y in absint.c_walk(n):
+            if y.get('kind') == 'CallExpr' and y.get('inner'):
+                nm = absint.c_name(y['inner'][0])
+                if nm and nm in callees and nm not in out:
+                    out.append(nm)
         return out
 
     def proc(n, sign):
@@ -1177,7 +1180,7 @@ def _check_arms(arms, op='add'):
         if sign is not None and (x.startswith('unsigned') != (sign == 'unsigned')):
             probs.append((x, 'the %s branch compares sizeof(T) with sizeof(%s): a %s T of that size is computed with the helper of the other signedness' % (sign, x, sign)))
         if not cal:
-            probs.append((x, 'the arm sizeof(T) == sizeof(%s) returns no helper call' % x))
+            probs.append((x, 'the arm sizeof(T) == sizeof(%s) calls no checked helper' % x))
         for c in cal:
             if c != want:
                 probs.append((x, 'the arm sizeof(T) == sizeof(%s)%s returns %s(...) instead of %s(...): operands are truncated / the overflow bound of another width is applied'
@@ -1409,6 +1412,11 @@ MUTATIONS = [
     ('Cython/Compiler/Optimize.py', 'visit_DivNode: `return super().visit_Node(node)` (the base class handler does not clear the bit node)', 'C04-BARRIER'),
     ('mutants/C04/*', '18 + 6 brainstormed breaking edits (widening arm `<=`, add/sub sign formulas exchanged, mul_const arms dropped, HALF_MAX / MIN macros, LeftShift bounds, dispatcher arm `<=` / negated, '
                       'SIGNED key inverted, bit zeroed late, MIN / -1 guard operands, unsigned sub bound, ...) and 10 behaviour-preserving rewrites; see meta.json of each', 'C04-ARITH / C04-DISPATCH / C04-SIGNKEY / C04-MINGUARD'),
+    ('Cython/Utility/Overflow.c', 'seed C04f: unsigned __builtin_mul_overflow helper assigns the shared bit (`*overflow = ...`); 9 further edits of that mechanism (mutants/C04/h-*: `=` / `^=` / reset-first / '
+                                  'if-else assignment in six other helpers and LeftShift, dispatcher arm writing a local bit that is assigned back or never copied)', 'C04-STICKY'),
+    ('Cython/Utility/Overflow.c', '7 rewrites (mutants/C04/hp-*): `*overflow = *overflow | e`, `if (e) *overflow = 1;`, local copy written back, `*overflow = 1` in the LeftShift overflow branch, '
+                                  'early return when the bit is already set, dispatcher parameter renamed, dispatcher result through a local', 'silent (the last one made C04-DISPATCH fire before: its arm extractor now '
+                                  'accepts a helper call anywhere in the arm, the value flow being decided by the decision table)'),
     # behaviour-preserving edits, all silent (no finding added or removed)
     ('Cython/Compiler/Optimize.py', 'visit_DivNode inlines save / clear / visitchildren / restore; visit_DivNode folds only `if node.type.is_float` (result through a local); '
                                     'visit_DivNode -> visit_fold_barrier -> visit_Node chain; visit_Node saves and clears unconditionally', 'silent'),
